@@ -373,6 +373,20 @@ GEN_FILES = {
 }
 
 
+def _load_plugins():
+    """harness/translate_*.py may register further Gen files: each defines
+    GEN_FILES = {"Name.v": function_returning_text} using the helpers of this module."""
+    import glob
+    import importlib.util
+    here = os.path.dirname(os.path.abspath(__file__))
+    for path in sorted(glob.glob(os.path.join(here, "translate_*.py"))):
+        name = os.path.splitext(os.path.basename(path))[0]
+        spec = importlib.util.spec_from_file_location(name, path)
+        mod = importlib.util.module_from_spec(spec)
+        spec.loader.exec_module(mod)
+        GEN_FILES.update(getattr(mod, "GEN_FILES", {}))
+
+
 def write_if_changed(path, text):
     try:
         with open(path, encoding="utf-8") as f:
@@ -390,6 +404,7 @@ def write_if_changed(path, text):
 def run(only=None):
     """Regenerate Gen files.  Returns {file: None | error string}."""
     os.makedirs(GEN, exist_ok=True)
+    _load_plugins()
     status = {}
     for name, fn in GEN_FILES.items():
         if only and name not in only:
